@@ -63,6 +63,7 @@ class State:
         self.nobj = 0
         self.steps = 0
         self.notes = set()
+        self.arith = []     # checked (overflow-guarded) arithmetic on symbolic operands, in execution order
         self.result = None
 
     def copy(self):
@@ -82,6 +83,7 @@ class State:
         s.nobj = self.nobj
         s.steps = self.steps
         s.notes = set(self.notes)
+        s.arith = list(self.arith)
         s.result = self.result
         return s
 
@@ -716,6 +718,8 @@ class Sim:
                 r = Term("I" + base, (a, b), ty_a)
         if op.endswith("WithOverflow"):
             st.notes.add("assume-no-integer-overflow")
+            if not (isinstance(a, Const) and isinstance(b, Const)):
+                st.arith.append((base, repr(a), repr(b)))
             return Struct(tuple_ty([ty_a, prim("bool")]), (r, Const(False, prim("bool"))))
         return r
 
